@@ -50,7 +50,7 @@ def dims(tier):
 	n = 5
 	return dict(
 		coll=['mixed', 'distinct', 'empties', 'single'],
-		container=['array', 'siglist', 'pylist', 'hdf5'],
+		container=['array', 'siglist', 'pylist', 'hdf5', 'array-view', 'array-int32-bounds', 'hdf5-slice'],
 		dtype=['u2', 'u4', 'u8', 'i2', 'i4', 'i8'],
 		func=['matrix', 'array', 'pairwise', 'pairwise-flat'],
 		chunk=[2, None, 1, 3, 4, 5, 6],
@@ -99,6 +99,20 @@ class Fix:
 				obj = SignatureList(arrs, self.ks, dtype=np.dtype(dtype))
 			elif container == 'pylist':
 				obj = list(arrs)
+			elif container == 'array-view':
+				# a contiguous slice of a larger concatenated array (values/bounds are views with a non-zero offset)
+				pad = [np.array([11, 12, 13], dtype=dtype), np.array([], dtype=dtype)]
+				big = SignatureArray(pad + arrs + pad[:1], self.ks, dtype=np.dtype(dtype))
+				obj = big[2:2 + len(arrs)]
+			elif container == 'array-int32-bounds':
+				full = SignatureArray(arrs, self.ks, dtype=np.dtype(dtype))
+				obj = SignatureArray.from_arrays(full.values, full.bounds.astype('i4'), self.ks)
+			elif container == 'hdf5-slice':
+				p = os.path.join(self.d, f'{coll}-{dtype}-s.gs')
+				pad = [np.array([11, 12, 13], dtype=dtype)]
+				dump_signatures(p, SignatureArray(pad + arrs + pad, self.ks, dtype=np.dtype(dtype)))
+				self.cache[(coll, 'hdf5-slice-file', dtype)] = load_signatures(p)
+				obj = self.cache[(coll, 'hdf5-slice-file', dtype)][1:1 + len(arrs)]
 			else:
 				p = os.path.join(self.d, f'{coll}-{dtype}.gs')
 				dump_signatures(p, SignatureArray(arrs, self.ks, dtype=np.dtype(dtype)))
@@ -108,7 +122,7 @@ class Fix:
 
 	def close(self):
 		for (c, k, d), o in self.cache.items():
-			if k == 'hdf5':
+			if k in ('hdf5', 'hdf5-slice-file'):
 				o.close()
 
 
